@@ -21,7 +21,7 @@ CLAIM = (
     "spellings) is C18; the text of the messages is C02."
 )
 OUTSIDE = [
-    "static trees and glob patterns in these obligations (no 'st' node, no nglob row in the bounded state): their string relations are decided by C18 and C17",
+    "static trees (no 'st' node in the bounded state) and the matching relation of glob patterns (one literal pattern is pinned in O8.3): the string relations are decided by C18 and C17",
     "sequences of more than two declarations (covered through the unique index on (kind, label) only)",
     "define_step as a whole (INSERT of a new step with its command label)",
 ]
@@ -65,6 +65,10 @@ BODY_PAIR = '''        from stepup.core.exceptions import GraphError, UsageError
             except UsageError as exc:
                 db.execute("ROLLBACK TO decl"); db.execute("RELEASE decl")
                 return "rejected"
+            except Exception as exc:
+                print("internal error:", type(exc).__name__, exc)
+                db.execute("ROLLBACK TO decl"); db.execute("RELEASE decl")
+                return "internal error"
         def claims():
             return db.execute("SELECT count(*) FROM node WHERE kind = 'file' AND NOT detached AND label = ?", (LABELS[margs["m.label"]],)).fetchone()[0]
         res = {}
@@ -80,7 +84,8 @@ BODY_PAIR = '''        from stepup.core.exceptions import GraphError, UsageError
         print("declarations:", margs, "results per order:", res)
         rej = {o: ("rejected" in r[0]) for o, r in res.items()}
         many = any(n > 1 for r in res.values() for n in r[1:])
-        return 1 if (rej[(1, 2)] != rej[(2, 1)] or many) else 0
+        internal = any("internal error" in r[0] for r in res.values())
+        return 1 if (rej[(1, 2)] != rej[(2, 1)] or many or internal) else 0
 '''
 
 
@@ -246,7 +251,82 @@ def o8_2(tier):
         body = f"        margs = {margs!r}\n        LABELS = {LABELS!r}\n" + BODY_PAIR
         _replay_generic(res, "O08.2", "O8.2:pair", content, body, "two declarations of one path are accepted in one order and rejected in the other")
 
-    c = _explore(res, "declaration pairs", K, D, _forest, action, post, on_violation=viol, lazy_enums=True, max_paths=4000, labels=LABELS, allow_integrity=False)
+    c = _explore(res, "declaration pairs", K, D, _forest, action, post, on_violation=viol, lazy_enums=True, internal_error_violates=True, max_paths=4000, labels=LABELS, allow_integrity=False)
+    res.twin("paths explored", "sat" if c["paths"] >= 3 else "unsat", 0.0)
+    res.nontrivial = len(res.queries)
+    return res
+
+
+BODY_GLOB = '''        from stepup.core.exceptions import UsageError
+        from stepup.core.enums import FILE_ROLE_BY_STATE, FileState, FileRole
+        async with db:
+            kind, lab = db.execute("SELECT kind, label FROM node WHERE i = ?", (margs["m.c1"],)).fetchone()
+            step = wf.node_from_row(margs["m.c1"], kind, lab)
+            role = FileRole.VOLATILE if margs["m.r1"] == 2 else FileRole.OUTPUT
+            row = db.execute("SELECT file.state, node.creator FROM node JOIN file ON file.node = node.i WHERE node.kind = 'file' AND NOT node.detached AND node.label = 'a'").fetchone()
+            mine = row is not None and FILE_ROLE_BY_STATE[FileState(row[0])] == role and row[1] == margs["m.c1"]
+            try:
+                wf.amend_step(step, **{("vol_paths" if margs["m.r1"] == 2 else "out_paths"): ["a"]}, ran_concurrently=lambda a, b: False)
+                accepted = True
+            except UsageError as exc:
+                print("rejected:", exc); accepted = False
+        print("glob 'a' registered by node 2; declaration", margs, "accepted:", accepted, "already declared by the same step:", mine)
+        return 1 if (accepted and not mine) else 0
+'''
+
+
+def o8_3(tier):
+    import stepup.core.workflow as wfm
+    from stepup.core.enums import FILE_ROLE_BY_STATE, FileRole
+    from stepup.core.exceptions import UsageError
+
+    res = ObResult()
+    K, D = (4, 1) if tier == "quick" else (5, 2)
+    res.bounds = f"{K} node slots, {D} dependency edges; ONE registered glob (pattern and stored regex 'a', registered by the attached step in slot 2); a RUNNING attached step amends 'a' as an output or a volatile output"
+    res.encoded += [enc(wfm.Workflow.amend_step), enc(wfm.Workflow._raise_if_glob_match), enc(wfm.Workflow._check_declaration)]
+    FileState, StepState, Need = enums()
+    fixed = {"nglob": [{"i": 1, "node": 2, "pattern": "a", "regex": "a", "data": "{}"}]}
+
+    def pre(wf):
+        return _forest(wf) + [wf.is_kind(1, "step"), wf.nodes[1].vals["detached"].v == 0]
+
+    def action(wf, w, s, aux):
+        import stepup.core.hash as hm
+
+        run = w.db.run
+        cls = type(w)
+        cls._find_owning_static_tree = lambda self, path: None
+        cls.watch_dir = lambda self, path: None
+        hm.FileHash.from_json = classmethod(lambda cls, txt: None)
+        c, ci = _creator(w, wf, run, "m.c1")
+        for j in range(wf.K):
+            run.assume(z3.Implies(ci == j + 1, wf.steps[j].vals["state"].v == StepState.RUNNING.value))
+        r = z3.Int("m.r1")
+        run.assume(z3.Or(r == 1, r == 2))
+        vol = run.decide_bool(r == 2)
+        role = FileRole.VOLATILE if vol else FileRole.OUTPUT
+        lab = wf.ctx.pool.atom("a")
+        same = []
+        for j in range(wf.K):
+            att = z3.And(wf.is_kind(j, "file"), bz(wf.files[j].present), wf.nodes[j].vals["detached"].v == 0, wf.nodes[j].vals["label"].v == lab)
+            in_role = z3.Or(*[wf.files[j].vals["state"].v == st.value for st, ro in FILE_ROLE_BY_STATE.items() if ro == role])
+            same.append(z3.And(att, in_role, z3.Not(bz(wf.nodes[j].vals["creator"].n)), wf.nodes[j].vals["creator"].v == ci))
+        aux["same"] = z3.Or(*same)
+        try:
+            w.amend_step(c, **{("vol_paths" if vol else "out_paths"): ["a"]}, ran_concurrently=lambda a, b: False)
+            aux["accepted"] = True
+        except UsageError:
+            aux["accepted"] = False
+
+    def post(wf, aux):
+        return [z3.And(z3.BoolVal(aux["accepted"]), z3.Not(aux["same"]))]
+
+    def viol(res, wf0, m, content, which, aux):
+        margs = {v: m.eval(z3.Int(v), model_completion=True).as_long() for v in ("m.c1", "m.r1")}
+        body = f"        margs = {margs!r}\n" + BODY_GLOB
+        _replay_generic(res, "O08.3", "O8.3:glob-product", content, body, "a step declares a path that a registered glob pattern matches, and is not rejected")
+
+    c = _explore(res, "glob versus product", K, D, pre, action, post, on_violation=viol, lazy_enums=True, internal_error_violates=True, max_paths=4000, labels=LABELS, fixed=fixed)
     res.twin("paths explored", "sat" if c["paths"] >= 3 else "unsat", 0.0)
     res.nontrivial = len(res.queries)
     return res
@@ -254,5 +334,6 @@ def o8_2(tier):
 
 OBLIGATIONS = [
     Ob("O8.1", o8_1, "_check_declaration is exact with respect to the claim on the path", weight=3, timeout={"quick": 2400, "thorough": 7200}),
+    Ob("O8.3", o8_3, "a path matched by a registered glob pattern cannot be declared as an output or volatile output", weight=2, timeout={"quick": 2400, "thorough": 7200}),
     Ob("O8.2", o8_2, "pairs of declarations of one path: rejected in one order iff rejected in the other", weight=5, timeout={"quick": 3000, "thorough": 7200}),
 ]
